@@ -47,7 +47,7 @@ class Prop(Check):
         "Proc.C33_pinned_nchar_false",
     ]
     DRIVER = "Drivers/Proc.lean"
-    QUICK_CASES = 600
+    QUICK_CASES = 450
     THOROUGH_CASES = 20000
     RULE = ("generated models with one failing processor call: object processor (own / abstract rule; root, inner, "
             "imported-file objects) or match processor (base types, regex, sequence, nested match rules), raising "
@@ -150,8 +150,7 @@ class Prop(Check):
                 m = get_model(what)
                 line, col = m._tx_parser.pos_to_linecol(what._tx_position)
                 obs["site"] = {"file": self.norm(run, m._tx_filename), "line": line, "col": col,
-                               "len": what._tx_position_end - what._tx_position,
-                               "root": hasattr(what, "_tx_filename")}
+                               "len": what._tx_position_end - what._tx_position}
             else:
                 obs["value"] = str(what)
             return make_exc(spec_)
@@ -225,7 +224,7 @@ class Prop(Check):
         if tgt["kind"] == "obj":
             s = obs["site"]
             site = {"f": self.fid(s["file"]), "l": s["line"], "c": s["col"], "n": s["len"]}
-            kind = "objRoot" if s["root"] else "objInner"
+            kind = "obj"
         else:
             fn, line, col, length, _root = self.expected_site(case)
             site = {"f": self.fid(fn), "l": line, "c": col, "n": length}
